@@ -32,8 +32,8 @@ type CState struct {
 // sliceOp: a user-defined Operator whose Go type is NOT comparable (== on two of them panics)
 type sliceOp []string
 
-func (o sliceOp) String() string  { return strings.Join(o, "") }
-func (sliceOp) Context() string   { return "user" }
+func (o sliceOp) String() string { return strings.Join(o, "") }
+func (sliceOp) Context() string  { return "user" }
 
 // ctxOp: a user operator with a chosen text and context (the same TEXT as another operator, a context of its own)
 type ctxOp struct{ text, ctx string }
